@@ -43,11 +43,12 @@ func baseDeck(short bool) []string {
 	return pokerface.NewStandardDeckCards()
 }
 
+// Rankings: the variant's table, obtained the way a table obtains it (through the options constructors)
 func (c *Cfg) Rankings() combination.PowerRankings {
 	if c.Short {
-		return combination.CombinationPowerShortDeck
+		return pokerface.NewShortDeckGameOptions().CombinationPowers
 	}
-	return combination.CombinationPowerStandard
+	return pokerface.NewStardardGameOptions().CombinationPowers
 }
 
 func (c *Cfg) Positions(i int) []string {
@@ -84,10 +85,12 @@ func (c *Cfg) SeatOf(pos string) int {
 
 func (c *Cfg) Opts() *pokerface.GameOptions {
 	o := pokerface.NewStardardGameOptions()
+	if c.Short {
+		o = pokerface.NewShortDeckGameOptions()
+	}
 	o.Ante, o.Blind.Dealer, o.Blind.SB, o.Blind.BB = c.Ante, c.Dl, c.SB, c.BB
 	o.Limit = c.Limit
 	o.HoleCardsCount, o.RequiredHoleCardsCount = c.Hole, c.Req
-	o.CombinationPowers = c.Rankings()
 	o.Deck = baseDeck(c.Short)
 	for i := 0; i < c.N; i++ {
 		o.Players = append(o.Players, &pokerface.PlayerSetting{Bankroll: c.Banks[i], Positions: c.Positions(i)})
@@ -149,6 +152,8 @@ func genCfg(r *rand.Rand, g GenOpts) *Cfg {
 		c.SB, c.Dl = 0, 0
 	case 4: // no small blind amount, dealer blind
 		c.SB = 0
+	case 5: // no forced blinds at all (ante-only or free game)
+		c.SB, c.BB, c.Dl = 0, 0, 0
 	}
 	c.DeadSB = r.Intn(6) == 0 && c.N >= 3
 	c.Limit = "no"
@@ -157,8 +162,17 @@ func genCfg(r *rand.Rand, g GenOpts) *Cfg {
 	}
 	c.Short = r.Intn(4) == 0
 	c.Hole, c.Req = 2, 0
-	if r.Intn(4) == 0 {
+	switch r.Intn(16) {
+	case 0, 1, 2, 3:
 		c.Hole, c.Req = 4, 2
+	case 4:
+		c.Hole, c.Req = 2, 2 // both hole cards must play
+	case 5:
+		c.Hole, c.Req = 3, 2
+	case 6:
+		c.Hole, c.Req = 3, 0
+	case 7:
+		c.Hole, c.Req = 5, 2
 	}
 	ds := 52
 	if c.Short {
